@@ -638,6 +638,24 @@ pub fn c10_monitor(ctx: &mut Ctx, o: &Outcome, tx: &Tx, _ring: &KeyRing) {
 // ------------------------------------------------------------------------------------------------ C16 (determinism part)
 
 pub fn c16_monitor(ctx: &mut Ctx, o: &Outcome, tx: &Tx, _ring: &KeyRing) {
+    // certificates: the order of first registration
+    {
+        let emitted: Vec<Vec<u8>> = tx.certs().iter().map(|c| c.span(tx.bytes).to_vec()).collect();
+        if !emitted.is_empty() && !o.cert_order.is_empty() {
+            if emitted == o.cert_order {
+                if emitted.len() >= 2 {
+                    ctx.bucket("c16.certificates-in-first-registration-order");
+                }
+            } else {
+                let mut a = emitted.clone();
+                let mut b = o.cert_order.clone();
+                a.sort();
+                b.sort();
+                let cls = if a == b { "order-differs-from-first-registration" } else if emitted.len() > o.cert_order.len() { "more-than-registered" } else { "differs-from-registered" };
+                ctx.violation(&format!("built-tx/certificates/{}", cls), detail(o));
+            }
+        }
+    }
     let n_ref = tx.reference_inputs().map(|x| x.len()).unwrap_or(0);
     if n_ref >= 2 {
         ctx.bucket("c16.rebuilt-with-2+-reference-inputs");
